@@ -20,6 +20,47 @@ pub const WORKERS: usize = 16;
 /// incremented whenever a case (or an enumeration block) has been judged; the watchdog reads it
 pub static HEARTBEAT: AtomicU64 = AtomicU64::new(0);
 
+/// the case each worker is judging right now (so that a call that never returns can be named and re-judged in a
+/// child process); the case is cloned, serialisation happens only if the watchdog needs it
+pub struct Slot {
+    since: Instant,
+    section: std::sync::Arc<str>,
+    make: Box<dyn FnOnce() -> Value + Send>,
+}
+pub static SLOTS: [Mutex<Option<Slot>>; WORKERS] = [const { Mutex::new(None) }; WORKERS];
+
+fn cpu_seconds_of(pid: u32) -> Option<f64> {
+    let s = std::fs::read_to_string(format!("/proc/{}/stat", pid)).ok()?;
+    let rest = s.rsplit(')').next()?;
+    let f: Vec<&str> = rest.split_whitespace().collect();
+    Some((f.get(11)?.parse::<f64>().ok()? + f.get(12)?.parse::<f64>().ok()?) / 100.0)
+}
+
+/// Re-judge a stuck case in a child process (`dltverif replay`) under a CPU budget.
+/// Some(true) = the child does not return either (confirmed), Some(false) = it returned, None = could not run it.
+fn confirm_in_child(prop: &str, file: &Path, budget_cpu_s: f64) -> Option<bool> {
+    let exe = std::env::current_exe().ok()?;
+    let mut child = std::process::Command::new(exe).arg("replay").arg(prop).arg(file).stdout(std::process::Stdio::null()).stderr(std::process::Stdio::null()).spawn().ok()?;
+    let started = Instant::now();
+    loop {
+        std::thread::sleep(std::time::Duration::from_millis(200));
+        if let Ok(Some(_)) = child.try_wait() {
+            return Some(false);
+        }
+        let cpu = cpu_seconds_of(child.id()).unwrap_or(0.0);
+        if cpu > budget_cpu_s {
+            let _ = child.kill();
+            let _ = child.wait();
+            return Some(true);
+        }
+        if started.elapsed().as_secs() > 600 {
+            let _ = child.kill();
+            let _ = child.wait();
+            return None;
+        }
+    }
+}
+
 fn process_cpu_seconds() -> f64 {
     let Ok(s) = std::fs::read_to_string("/proc/self/stat") else { return 0.0 };
     // fields 14 and 15 (utime, stime) counted behind the closing parenthesis of the command name
@@ -30,9 +71,11 @@ fn process_cpu_seconds() -> f64 {
 }
 
 /// Watchdog for code under test that never returns inside this process (only C12 runs loads in a child): when no case
-/// has been finished for at least 90 s of wall-clock time AND the process has burned more than 900 s of CPU time since
-/// the last finished case (a spinning worker, not a sleeping machine), the run is given up as INCONCLUSIVE (exit 2).
-/// That is never reported as a violation: this check cannot attribute a hang to its property.
+/// has been finished for at least 90 s of wall-clock time AND the process has burned more than 300 s of CPU time since
+/// the last finished case (a spinning worker, not a sleeping machine), the cases the stuck workers are judging are
+/// written out and each is re-judged by `dltverif replay` in a child process under a budget of 30 s of CPU time.  A case
+/// on which the child does not return either is a VIOLATION (with that case as the replay); otherwise — enumerations,
+/// cases that return in the child — the run is given up as INCONCLUSIVE (exit 2), never as a violation.
 pub fn spawn_watchdog(prop: String) {
     std::thread::spawn(move || {
         let mut last = HEARTBEAT.load(Ordering::Relaxed);
@@ -48,7 +91,44 @@ pub fn spawn_watchdog(prop: String) {
                 continue;
             }
             let burned = process_cpu_seconds() - cpu_at;
-            if since.elapsed().as_secs() >= 90 && burned > 900.0 {
+            if since.elapsed().as_secs() >= 90 && burned > 300.0 {
+                // name the cases the stuck workers are in and re-judge each in a child process under a CPU budget
+                let root = match std::env::var("DLTVERIF_OUT") {
+                    Ok(d) if !d.is_empty() => PathBuf::from(d),
+                    _ => std::env::var("DLTVERIF_ROOT").map(PathBuf::from).unwrap_or_else(|_| PathBuf::from(".")),
+                };
+                let mut confirmed = vec![];
+                for slot in SLOTS.iter() {
+                    let taken = match slot.try_lock() {
+                        Ok(mut g) => g.take(),
+                        Err(_) => None,
+                    };
+                    let Some(sl) = taken else { continue };
+                    if sl.since.elapsed().as_secs() < 60 || confirmed.len() >= 2 {
+                        continue;
+                    }
+                    let case = (sl.make)();
+                    let body = json!({"property": prop, "section": &*sl.section, "signature": "does-not-return", "violation": "the call did not return (re-judged in a child process under a CPU budget)", "case": case});
+                    let text = serde_json::to_string_pretty(&body).unwrap_or_default();
+                    let dir = root.join("replays");
+                    let _ = std::fs::create_dir_all(&dir);
+                    let path = dir.join(format!("{}-does-not-return-{:016x}.json", prop, hash_str(&text)));
+                    if std::fs::write(&path, text).is_err() {
+                        continue;
+                    }
+                    if confirm_in_child(&prop, &path, 30.0) == Some(true) {
+                        confirmed.push(path);
+                    } else {
+                        let _ = std::fs::remove_file(&path);
+                    }
+                }
+                if !confirmed.is_empty() {
+                    for p in &confirmed {
+                        println!("VIOLATION property={} replay={}", prop, p.display());
+                        println!("  a call into dlt-core does not return for this case: confirmed in a child process, which burned 30 s of CPU on it alone (a normal case takes micro- to milliseconds)");
+                    }
+                    std::process::exit(1);
+                }
                 println!(
                     "INCONCLUSIVE property={} watchdog: no case finished for {} s while {:.0} s of CPU were consumed - some call into dlt-core does not return in this process (non-termination is judged by the C12 check, in a child process); no verdict",
                     prop, since.elapsed().as_secs(), burned
@@ -278,7 +358,7 @@ impl Run {
     /// `floor` = minimal fraction of non-trivial cases (below it the run is "generator degenerate").
     pub fn random<C, S, FS, FC>(&self, section: &str, cases: u64, floor: f64, strat: FS, check: FC)
     where
-        C: Debug + Clone + Hash + Serialize + Send,
+        C: Debug + Clone + Hash + Serialize + Send + 'static,
         S: Strategy<Value = C>,
         FS: Fn() -> S + Sync,
         FC: Fn(&C) -> CheckResult + Sync,
@@ -286,6 +366,7 @@ impl Run {
         if self.has_violation() {
             return;
         }
+        let section_arc: std::sync::Arc<str> = std::sync::Arc::from(section);
         let per_worker = cases.div_ceil(WORKERS as u64).max(1);
         let stop = AtomicBool::new(false);
         let fails: Mutex<Vec<(usize, C)>> = Mutex::new(vec![]);
@@ -294,6 +375,7 @@ impl Run {
         std::thread::scope(|sc| {
             for w in 0..WORKERS {
                 let (stop, fails, strat, check, sec_evals, sec_nt) = (&stop, &fails, &strat, &check, &sec_evals, &sec_nt);
+                let section_arc = section_arc.clone();
                 sc.spawn(move || {
                     crate::util::install_panic_hook();
                     let wseed = splitmix64(self.seed ^ splitmix64(hash_str(&format!("{}/{}", self.prop, section)).wrapping_add(w as u64)));
@@ -331,7 +413,12 @@ impl Run {
                             return Ok(());
                         }
                         evals.set(evals.get() + 1);
+                        {
+                            let kept = case.clone();
+                            *SLOTS[w].lock().unwrap() = Some(Slot { since: Instant::now(), section: section_arc.clone(), make: Box::new(move || serde_json::to_value(&kept).unwrap_or(Value::Null)) });
+                        }
                         let verdict = check(&case);
+                        *SLOTS[w].lock().unwrap() = None;
                         HEARTBEAT.fetch_add(1, Ordering::Relaxed);
                         match verdict {
                             Ok(pass) => {
